@@ -9,5 +9,6 @@ import (
 	_ "verif/props/c05"
 	_ "verif/props/c06"
 	_ "verif/props/c07"
+	_ "verif/props/c09"
 	_ "verif/props/smoke"
 )
